@@ -497,6 +497,18 @@ def tool_grid(tier):
         "zip_longest": (0, [{"fill": None}, {"fill": ["fill"]}], [], "obj"),
         "all": (1, [{}], [], "obj"),
         "any": (1, [{}], [], "obj"),
+        "merge": (0, [{}, {"reverse": True}, {"key": 0}, {"key": 0, "reverse": True}], [{"kind": "key"}], "sorted"),
+        "sum": (1, [{}, {"start": ["i", 5]}], [], "int"),
+        "min": (1, [{}, {"key": 0}, {"key": 0, "default": ["o", 999, 7]}], [{"kind": "negkey"}], "obj"),
+        "max": (1, [{}, {"key": 0}], [{"kind": "negkey"}], "obj"),
+        "list": (1, [{}], [], "obj"),
+        "tuple": (1, [{}], [], "obj"),
+        "set": (1, [{}], [], "obj"),
+        "dict": (1, [{}], [], "pairs"),
+        "sorted": (1, [{}, {"key": 0, "reverse": True}], [{"kind": "negkey"}], "obj"),
+        "reduce": (1, [{}, {"initial": ["o", 900, 1]}], [PAIR], "obj"),
+        "nlargest": (1, [{"n": 2}, {"n": 2, "key": 0}], [{"kind": "negkey"}], "obj"),
+        "nsmallest": (1, [{"n": 2}, {"n": 0}], [], "obj"),
     }
     return grid
 
@@ -519,6 +531,15 @@ def source_sets(tool, nsrc, style, maxlen, rng, multi_max=3):
         for a in key_seqs(min(maxlen, 3)):
             for b in key_seqs(min(maxlen, 3)):
                 yield [a, b]
+    elif style == "sorted":  # pre-sorted inputs (merge): all sorted key lists of length 0..2 over {0,1,2}, 1..multi_max sources
+        sorted_lists = [list(c) for ln in range(0, 3) for c in itertools.combinations_with_replacement(range(3), ln)]
+        for n in range(1, multi_max + 1):
+            if n <= 2:
+                for combo in itertools.product(sorted_lists, repeat=n):
+                    yield [list(c) for c in combo]
+            else:
+                for _ in range(40):
+                    yield [list(rng.choice(sorted_lists)) for _ in range(n)]
     else:  # variable number of sources: 1..multi_max with lengths 0..2 (+ random longer)
         for n in range(1, multi_max + 1):
             for lens in itertools.product(range(0, 3), repeat=n):
@@ -529,8 +550,16 @@ def build_case(tool, params, fns, style, keyseqs, kinds, cons, flavours=None):
     srcs = []
     base = 0
     for ks, kind in zip(keyseqs, kinds):
-        ints = style == "acc" and params.get("fn") is None
-        srcs.append({"kind": kind, "script": items_for(ks, base, tuples=(style == "tup"), ints=ints)})
+        ints = (style == "acc" and params.get("fn") is None) or style == "int"
+        if style == "sorted" and params.get("reverse"):
+            ks = sorted(ks, reverse=True)
+        elif style == "sorted":
+            ks = sorted(ks)
+        if style == "pairs":
+            script = [["t", ["o", base + 2 * i, k], ["o", base + 2 * i + 1, i]] for i, k in enumerate(ks)]
+        else:
+            script = items_for(ks, base, tuples=(style == "tup"), ints=ints)
+        srcs.append({"kind": kind, "script": script})
         base += 100
     fl = flavours or ["def"] * len(fns)
     return {"tool": tool, "params": params, "srcs": srcs,
